@@ -95,3 +95,12 @@ ML_H(K_ml_ratio_geo2d)
 ML_H(K_ml_ratio_block2d)
 ML_H(K_ml_ratio_geo3d)
 ML_H(K_ml_ratio_block3d)
+
+/* ---- FanProjData constructor ---- */
+#include "K_fan_ctor.c"
+void h_K_fan_ctor(void)
+{
+  struct FAN* s;
+  g_ra = nondet_int(); g_a = nondet_int(); g_rb = nondet_int(); g_n1 = 0; g_n2 = 0; g_n3 = 0;
+  K_fan_ctor(s, nondet_int(), nondet_int(), nondet_int(), nondet_int());
+}
